@@ -392,8 +392,8 @@ Qed.
 Lemma get_response_nofuel {A} (d : dec A) h : nf d -> nofuel (get_response d h).
 Proof.
   intros Hd s r s' H Hr. destruct (get_response_inv _ _ _ _ _ H) as [[b [Hb Hq]]|[e [Hb Hq]]]; subst r.
-  - destruct (d b) as [[a rest]|e|w] eqn:E; try discriminate. inversion Hr; subst. exact (Hd _ E).
-  - inversion Hr; subst. exact (nofuel_get_response_bytes _ _ _ _ Hb eq_refl).
+  - destruct (d b) as [[a rest]|e|w] eqn:E; try discriminate. inversion Hq; subst. exact (Hd _ E).
+  - inversion Hq; subst. exact (nofuel_get_response_bytes _ _ _ _ Hb eq_refl).
 Qed.
 Lemma nofuel_lift {A} (x : res A) : x <> Err EOutOfFuel -> nofuel (lift x).
 Proof. intros Hx s r s' H. inversion H; subst. exact Hx. Qed.
@@ -645,21 +645,24 @@ Proof.
                 group_lookup_attempt req k2 = (Ok resp2, s2) -> gc_error resp2 = 0 ->
                 (n1 <= n2)%nat).
     { clear. induction 1 as [|n1 a s0 resp s1 k1 E Ep Ea Hr IH]; intros n2 k2 resp2 s2 H2 E2 H0; [lia|].
-      inversion H2; subst.
+      inversion H2 as [|n0 a0 s0' resp' s1' sk' E' Ep' Ea' Hr']; subst.
       - rewrite E in E2. inversion E2; subst. rewrite H0 in Ep. discriminate.
-      - rewrite E in H. inversion H; subst. specialize (IH _ _ _ _ H4 E2 H0). lia. }
+      - rewrite E in E'. inversion E'; subst. specialize (IH _ _ _ _ Hr' E2 H0). lia. }
     assert (Hdet2 : forall n1 a s0 k1, lookup_retried req n1 a s0 k1 ->
               forall k2, lookup_retried req n1 a s0 k2 -> k1 = k2).
-    { clear. induction 1 as [|n1 a s0 resp s1 k1 E Ep Ea Hr IH]; intros k2 H2; inversion H2; subst; [reflexivity|].
-      rewrite E in H0. inversion H0; subst. apply IH. assumption. }
+    { clear. induction 1 as [|n1 a s0 resp s1 k1 E Ep Ea Hr IH]; intros k2 H2;
+        inversion H2 as [|n0 a0 s0' resp' s1' sk' E' Ep' Ea' Hr']; subst; [reflexivity|].
+      rewrite E in E'. inversion E'; subst. apply IH. assumption. }
     assert (Hpre : forall n1 a s0 k1, lookup_retried req n1 a s0 k1 -> forall n2 k2, lookup_retried req n2 a s0 k2 ->
               (n1 < n2)%nat -> exists resp1 s1, group_lookup_attempt req k1 = (Ok resp1, s1) /\
                                  from_protocol (gc_error resp1) = Some KC_GroupCoordinatorNotAvailable /\
                                  a + Z.of_nat n1 < retry_max_attempts (cfg (cl s1))).
     { clear. induction 1 as [|n1 a s0 resp s1 k1 E Ep Ea Hr IH]; intros n2 k2 H2 Hlt.
-      - inversion H2; subst; [lia|]. exists resp, s1. split; [assumption|]. split; [assumption|]. lia.
-      - inversion H2; subst; [lia|]. rewrite E in H. inversion H; subst.
-        destruct (IH _ _ H4 ltac:(lia)) as (resp1 & s2 & A1 & A2 & A3). exists resp1, s2.
+      - inversion H2 as [|n0 a0 s0' resp' s1' sk' E' Ep' Ea' Hr']; subst; [lia|].
+        exists resp', s1'. split; [assumption|]. split; [assumption|]. lia.
+      - inversion H2 as [|n0 a0 s0' resp' s1' sk' E' Ep' Ea' Hr']; subst; [lia|].
+        rewrite E in E'. inversion E'; subst.
+        destruct (IH _ _ Hr' ltac:(lia)) as (resp1 & s2 & A1 & A2 & A3). exists resp1, s2.
         split; [exact A1|]. split; [exact A2|]. lia. }
     pose proof (Hdet _ _ _ _ Hr _ _ _ _ Hr' E H0) as Hle.
     destruct (Nat.eq_dec n n') as [->|Hne].
@@ -669,12 +672,120 @@ Proof.
       unfold lookup_final in Hf. rewrite A1, A2 in Hf. destruct Hf as (_ & _ & Hf). specialize (Hf eq_refl). lia.
 Qed.
 
-Corollary C14_lookup_exhausted : forall fuel group req attempt s r s',
-  group_lookup_loop fuel group req attempt s = (r, s') -> (length (script s) < fuel)%nat ->
-  r = Err (EKafka KC_GroupCoordinatorNotAvailable) ->
-  exists n sk, lookup_retried req n attempt s sk /\
-    retry_max_attempts (cfg (cl s)) <= attempt + Z.of_nat n /\
-    (* ... and every retry happened below the limit: n <= max 0 (limit - attempt) *)
-    (0 < n -> attempt + Z.of_nat n <= retry_max_attempts (cfg (cl s)))%Z.
+(* ================================================================================== *)
+(* 4. get_group_coordinator                                                           *)
+(* ================================================================================== *)
+
+Lemma ggc_unfold group s :
+  get_group_coordinator group s =
+  match group_coordinator (cs (cl s)) group with
+  | Some h => (Ok h, s)
+  | None =>
+      group_lookup_loop (S (length (script s))) group
+        (enc_group_coordinator_req (fst (next_correlation_id (cs (cl s)))) (client_id (cfg (cl s))) group) 1
+        (with_cs s (snd (next_correlation_id (cs (cl s)))))
+  end.
 Proof.
-Abort.
+  unfold get_group_coordinator. unfold mbind at 1. unfold get_client at 1.
+  destruct (group_coordinator (cs (cl s)) group); reflexivity.
+Qed.
+
+Lemma ggc_cfg group : keeps (fun s s' => ext s s' /\ same_cfgc s s') (get_group_coordinator group).
+Proof.
+  intros s r s' H. rewrite ggc_unfold in H. destruct (group_coordinator (cs (cl s)) group).
+  - inversion H; subst. split; [apply ext_refl|reflexivity].
+  - destruct (lookup_loop_cfg _ _ _ _ _ _ _ H) as [E C]. split; [eapply ext_trans; [apply with_cs_ext|exact E]|].
+    unfold same_cfgc in *. rewrite C. apply with_cs_cfg.
+Qed.
+
+Lemma be_enc_ulen n z : ulen (be_enc n z) = Z.of_nat n.
+Proof. unfold ulen. rewrite be_enc_length. reflexivity. Qed.
+
+Lemma enc_gc_req_len corr cid group q :
+  enc_group_coordinator_req corr cid group = Ok q -> ulen q = 12 + ulen cid + ulen group.
+Proof.
+  unfold enc_group_coordinator_req, enc_header, enc_str. intros H.
+  destruct (ulen cid <=? i16_max); cbn [bind] in H; [|discriminate].
+  destruct (ulen group <=? i16_max); cbn [bind] in H; [|discriminate].
+  inversion H; subst. unfold ulen. cbn [length]. rewrite app_length. cbn [length]. lia.
+Qed.
+Lemma enc_gc_req_nofuel corr cid group : enc_group_coordinator_req corr cid group <> Err EOutOfFuel.
+Proof.
+  unfold enc_group_coordinator_req, enc_header, enc_str.
+  destruct (ulen cid <=? i16_max); cbn [bind]; [|discriminate].
+  destruct (ulen group <=? i16_max); cbn [bind]; discriminate.
+Qed.
+
+(* the frame of interest is longer than any coordinator request of this client for this group *)
+Definition gc_short (fr cid group : bytes) : Prop := ulen cid + ulen group + 16 < ulen fr.
+
+Lemma frame_ulen p : ulen (frame p) = 4 + ulen p.
+Proof. unfold frame, ulen. rewrite app_length. unfold enc_i32. rewrite be_enc_length. lia. Qed.
+
+Lemma gc_short_short fr cid group corr : gc_short fr cid group -> short fr (enc_group_coordinator_req corr cid group).
+Proof.
+  intros Hs q Hq. apply enc_gc_req_len in Hq. pose proof (frame_ulen q). unfold gc_short, ulen in *. lia.
+Qed.
+
+Lemma ggc_quiet group fr s r s' :
+  get_group_coordinator group s = (r, s') -> gc_short fr (client_id (cfg (cl s))) group -> quiet fr s s'.
+Proof.
+  intros H Hs. rewrite ggc_unfold in H. destruct (group_coordinator (cs (cl s)) group).
+  - inversion H; subst. apply preorder_quiet.
+  - eapply (proj2 (preorder_quiet fr)); [apply with_cs_quiet|].
+    eapply lookup_loop_quiet; [|exact H]. apply gc_short_short. exact Hs.
+Qed.
+
+Lemma ggc_nofuel group : nofuel (get_group_coordinator group).
+Proof.
+  intros s r s' H. rewrite ggc_unfold in H. destruct (group_coordinator (cs (cl s)) group).
+  - inversion H; subst. discriminate.
+  - eapply lookup_loop_nofuel; [apply enc_gc_req_nofuel|exact H|]. cbn. lia.
+Qed.
+
+(* ================================================================================== *)
+(* 5. commit and group offset fetch: one generic retry loop                           *)
+(* ================================================================================== *)
+
+Definition exchange_attempt {A} (d : dec A) (group : bytes) (req : res bytes) : M A :=
+  let+ h := get_group_coordinator group in send_receive d h req.
+
+Inductive verdict (B : Type) := VDone (b : B) | VFatal (c : Z) | VRetry (code : Z) (reset : bool).
+Arguments VDone {B} b. Arguments VFatal {B} c. Arguments VRetry {B} code reset.
+
+Definition after_retry (group : bytes) (reset : bool) (s : st) : st :=
+  if reset then with_cs s (remove_group_coordinator (cs (cl s)) group) else s.
+
+Fixpoint retry_loop {A B} (d : dec A) (judge : A -> verdict B) (fuel : nat) (group : bytes) (req : res bytes)
+         (attempt : Z) : M B :=
+  match fuel with
+  | O => fail EOutOfFuel
+  | S f => fun s =>
+      match exchange_attempt d group req s with
+      | (Ok a, s2) =>
+          match judge a with
+          | VDone b => (Ok b, s2)
+          | VFatal c => (Err (EKafka c), s2)
+          | VRetry code reset =>
+              if attempt <? retry_max_attempts (cfg (cl s2))
+              then retry_loop d judge f group req (attempt + 1) (after_retry group reset s2)
+              else (Err (EKafka code), after_retry group reset s2)
+          end
+      | (Err e, s2) => (Err e, s2)
+      | (Panic w, s2) => (Panic w, s2)
+      end
+  end.
+
+Definition commit_judge (a : Z * list (bytes * list (Z * Z))) : verdict unit :=
+  match commit_scan (snd a) with
+  | ScanOk => VDone tt
+  | ScanRetry code reset => VRetry code reset
+  | ScanFatal c => VFatal c
+  end.
+Definition fetch_judge (a : Z * list (bytes * list offset_fetch_part)) : verdict (list (bytes * list (Z * Z))) :=
+  match group_scan (snd a) [] with
+  | inl (inl m) => VDone m
+  | inl (inr (code, reset)) => VRetry code reset
+  | inr c => VFatal c
+  end.
+
